@@ -502,8 +502,12 @@ func toFloatPair(x, y any) (float64, float64, bool) {
 func toInt(v any) (int, bool, bool) {
 	switch v := v.(type) {
 	case decimal128.Decimal:
+		if v.IsNaN() {
+			return 0, true, false
+		}
+
 		i, ok := v.Int64()
-		if !ok {
+		if !ok || !decimal128.FromInt64(i).Equal(v) {
 			return 0, true, false
 		}
 
